@@ -25,7 +25,6 @@ from .exceptions import BadInputError
 
 import operator
 from functools import lru_cache
-from math import floor
 
 
 _operator_map = {op.__name__: op for op in [
@@ -324,7 +323,7 @@ class TimeRecurrence:
                     (timepoint - self._start_point).get_seconds(),
                     self._duration.get_seconds())
                 next_timepoint = timepoint + (self._duration - Duration(
-                    seconds=floor(seconds_since)))
+                    seconds=seconds_since))
                 if self._get_is_in_bounds(next_timepoint):
                     return next_timepoint
                 return None
